@@ -235,3 +235,7 @@ contract("C15", "gibbs_take_step", native=False)(gibbs_take_step)
 
 from contracts.mcmc_pca import pca_take_step
 contract("C15", "pca_take_step", native=False)(pca_take_step)
+
+
+from contracts.mcmc_hmc import hmc_take_step
+contract("C15", "hmc_take_step", native=False)(hmc_take_step)
